@@ -43,7 +43,7 @@ func statChanges(before, after run.Snapshot, paths []string) []mon.Problem {
 func c02(args []string) {
 	c := chk.New("C02", "exploration", args)
 	c.Build(false)
-	c.Rule("[links and pass-through] histories: complete run, an intermediate output that has a consumer is moved away and linked back (relative and absolute link), run again twice: no command runs, no file appears, every entry keeps inode/mtime/bytes; a process whose out-port path is its input path ({i:in}), file there before the first run: its command never runs and the file is never touched. generated non-streaming graphs of command / Go-function processes and sources; for each graph subsets of its tasks (all subsets when <= 5 tasks, else random ones) get all their outputs pre-placed (bytes of an earlier complete run incl. audit files / arbitrary user bytes / empty files), and the history 'complete run, run again in place' (also: 4-16 independent chains that end in the sink and fan into one merging process, also a process whose out-port is declared through SetOut only; chains / two-output tasks / diamonds with outputs in nested, parent-relative and absolute directories, re-run completely and after deleting the last process's outputs; 4-16 independent chains re-run 25-60 times in place as separate processes and 60-150 times inside one process, so that every process finishes at the same moment); oracle = no start event of a skipped task, (inode, size, mtime_ns, sha256) of every pre-existing output unchanged, downstream tasks executed exactly once on the pre-existing bytes (reference evaluation), re-run executes nothing. distinct_nontrivial = distinct (graph shape, subset, content kind) with >= 1 skipped and >= 1 executed task, plus re-run histories")
+	c.Rule("[interrupted runs] the run is killed inside a task's finalization (hook points after a declared output was renamed, temp directory still there) and re-run in place without cleanup: outputs already at their final paths keep inode/mtime/bytes and no command of their tasks runs; [links and pass-through] histories: complete run, an intermediate output that has a consumer is moved away and linked back (relative and absolute link), run again twice: no command runs, no file appears, every entry keeps inode/mtime/bytes; a process whose out-port path is its input path ({i:in}), file there before the first run: its command never runs and the file is never touched. generated non-streaming graphs of command / Go-function processes and sources; for each graph subsets of its tasks (all subsets when <= 5 tasks, else random ones) get all their outputs pre-placed (bytes of an earlier complete run incl. audit files / arbitrary user bytes / empty files), and the history 'complete run, run again in place' (also: 4-16 independent chains that end in the sink and fan into one merging process, also a process whose out-port is declared through SetOut only; chains / two-output tasks / diamonds with outputs in nested, parent-relative and absolute directories, re-run completely and after deleting the last process's outputs; 4-16 independent chains re-run 25-60 times in place as separate processes and 60-150 times inside one process, so that every process finishes at the same moment); oracle = no start event of a skipped task, (inode, size, mtime_ns, sha256) of every pre-existing output unchanged, downstream tasks executed exactly once on the pre-existing bytes (reference evaluation), re-run executes nothing. distinct_nontrivial = distinct (graph shape, subset, content kind) with >= 1 skipped and >= 1 executed task, plus re-run histories")
 	c.Assume("subsets are subsets of tasks (all outputs of a task present), as the property quantifies; partial presence is C03's subject", ".audit.json files, log/ and atime are not judged")
 	rng := c.Rand("c02")
 	ngraphs := c.Pick(14, 120)
@@ -332,6 +332,7 @@ func c02(args []string) {
 	c02pathShapes(c)
 	c02setOutOnly(c)
 	c02linksAndPassThrough(c)
+	c02interrupted(c)
 	c.Finish()
 }
 
@@ -764,5 +765,89 @@ func c02linksAndPassThrough(c *chk.Ctx) {
 		}
 		c.Count("outputs_stat_compared", len(outs))
 		c.Nontrivial(fmt.Sprintf("linkpass|%v|%d", link, i))
+	})
+}
+
+// c02interrupted: outputs left by an interrupted run. The run is killed inside the finalization of a task - after a
+// declared output was renamed to its final path, while the task's temp directory still exists (further outputs or
+// additional files to move) - and the workflow is run again in place without any cleanup. Whatever the re-run does
+// (the library stops with "existing temp folders"), the outputs that were at their final paths keep inode, mtime and
+// bytes, and no command of a task with such an output is executed.
+func c02interrupted(c *chk.Ctx) {
+	type ij struct {
+		kind string
+		gof  bool
+		cp   gen.CrashPoint
+	}
+	var jobs []ij
+	for _, k := range []string{"twoout", "extra"} {
+		for _, g := range []bool{false, true} {
+			root := c.CaseDir()
+			s := gen.Topo(k, gen.ShapeNested, g, root, 2)
+			res := execSpec(c, root, s, Cfg{Buf: 128, Procs: 4}, gen.TopoBehav(k, evalRef(s, nil)), false, 0)
+			n := 0
+			for _, p := range gen.CrashPoints(res.Events) {
+				if p.Point == "fin.renamed" || p.Point == "fin.extra_moved" || p.Point == "fin.before_rmtemp" {
+					if c.Thorough() || n%3 == 0 {
+						jobs = append(jobs, ij{k, g, p})
+					}
+					n++
+				}
+			}
+			c.Drop(root)
+		}
+	}
+	run.Parallel(len(jobs), func(i int) {
+		j := jobs[i]
+		root := c.CaseDir()
+		defer c.Drop(root)
+		s := gen.Topo(j.kind, gen.ShapeNested, j.gof, root, 2)
+		exp := evalRef(s, nil)
+		bh := gen.TopoBehav(j.kind, exp)
+		desc := map[string]interface{}{"topology": j.kind, "gofunc": j.gof, "crash": j.cp, "history": "run killed inside a task's finalization, run again in place without cleanup", "spec": s}
+		res := execSpec(c, root, s, Cfg{Buf: 128, Procs: 4, Crash: j.cp.Env()}, bh, false, 0)
+		if res.Signal == "" {
+			c.Count("interrupted_crash_point_not_hit", 1)
+			return
+		}
+		before := mon.SnapRoot(root)
+		// declared outputs that are at their final path now, and the tasks they belong to
+		var outs []string
+		owner := map[string]bool{}
+		for _, t := range exp.Tasks {
+			for _, o := range t.Outs {
+				fp := mon.RootRel(root, o)
+				if e, ok := before[fp]; ok && e.Mode == "f" {
+					outs = append(outs, fp)
+					owner[t.Key] = true
+				}
+			}
+		}
+		if len(outs) == 0 {
+			c.Count("interrupted_nothing_finalized_yet", 1)
+			return
+		}
+		r2 := execSpec(c, root, s, Cfg{Buf: 128, Procs: 4}, bh, true, 1)
+		if r2.Hang != "" && !strings.HasPrefix(r2.Hang, "deadlock") {
+			c.Inconclusive("re-run: " + r2.Hang)
+			return
+		}
+		var rp []mon.Problem
+		for _, e := range r2.Trace {
+			if e.Ev == "start" && owner[e.Key] {
+				rp = append(rp, mon.Problem{Sig: "rerun-executed-command", Msg: "the re-run executed " + e.Key + " although an output of that task was at its final path"})
+			}
+		}
+		rp = append(rp, statChanges(before, mon.SnapRoot(root), outs)...)
+		if len(rp) > 0 {
+			for _, sig := range sigSet(rp) {
+				desc["problems"] = mon.Summarize(rp, 10)
+				c.Violation(sig, fmt.Sprintf("killed at %s, re-run without cleanup (exit %d): %s", j.cp.Point, r2.Exit, strings.Join(mon.Summarize(rp, 4), "\n  ")), desc)
+			}
+			return
+		}
+		c.Count("outputs_stat_compared", len(outs))
+		c.Count("interrupted_histories", 1)
+		c.Nontrivial(fmt.Sprintf("interrupted|%s|%v|%s#%d", j.kind, j.gof, j.cp.Point, j.cp.N))
 	})
 }
